@@ -1,4 +1,4 @@
 (* C08 -- extraction of the touch / classification model to ocaml/incl.ml (driver: ocaml/incl_driver.ml) *)
 Require Import ExtrOcamlBasic ExtrOcamlNativeString.
 Require Import MPSV.Dpe.DpeDefs MPSV.Dpe.DpeModel MPSV.Incl.InclModel MPSV.Incl.TouchModel MPSV.Incl.TouchExch.
-Extraction "../ocaml/incl.ml" touch3 touch_unit_m_fixed root_obs mk_root obs_bits side_bits run_state listing.
+Extraction "../ocaml/incl.ml" touch3 touch_unit_m_fixed touch_unit_fixed root_obs root_obs_gen mk_root obs_bits side_bits run_state listing.
